@@ -29,9 +29,9 @@ def rule_tpl_role(ctx):
             n += 1
             s = tx(t)
             ctx.instance(f"add_helpers::{qual}", sample=s)
-            m = re.fullmatch(r"self\.#(\w+)\.#(\w+)\(rhs\.#(\w+)\)", s)
-            if not m or m.group(1) != m.group(3):
-                ctx.report(f"role:add_helpers::{qual}", f"impl/src/add_helpers.rs:{t.line}", f"field-wise operator template is `{s}`; expected `self.#f.#op(rhs.#f)` (left operand is the receiver, same field on both sides)", {})
+            m = re.fullmatch(r"#(\w+)\(#(\w+)self\.#(\w+),rhs\.#(\w+)\)", s)
+            if not m or m.group(3) != m.group(4):
+                ctx.report(f"role:add_helpers::{qual}", f"impl/src/add_helpers.rs:{t.line}", f"field-wise operator template is `{s}`; expected `#method(#lhs_ref self.#f, rhs.#f)` (the operator's method called fully qualified, left operand first, same field on both sides)", {})
         # the selector enumerates the fields in order (for-loop or iterator chain alike)
         mac = next((m_ for m_, _ in A.find(fn.block, ("Expr::Macro", "Stmt::Macro")) if A.path_last(m_["mac"]["path"]) == "quote"), None)
         it = A.iteration_of(mac, fn.block) if mac is not None else None
@@ -41,13 +41,27 @@ def rule_tpl_role(ctx):
             ctx.report("role:tuple_exprs:index", ctx.where(fn.file, fn.node), f"`tuple_exprs` no longer walks the indices 0..fields.len() in order (iterates `{src}`, selectors {sel})", {})
         if qual == "struct_exprs" and not (it and A.wfull(src, "fields") and any(A.wfull(x, "let field_id=field.ident.as_ref().unwrap()") for x in sel)):
             ctx.report("role:struct_exprs:ident", ctx.where(fn.file, fn.node), f"`struct_exprs` no longer walks the fields in order by their own identifier (iterates `{src}`, selectors {sel})", {})
+    # the method handed to the helpers is the fully qualified operator method, the left-hand borrow is none for the
+    # by-value operators and `&mut` for the assigning ones
+    for rel, lhs in (("impl/src/add_like.rs", ""), ("impl/src/add_assign_like.rs", "&mut"), ("impl/src/not_like.rs", None)):
+        efn = A.get_fn(ctx.files, rel, "expand")
+        etx = A.TList(tx(t) for t in T.templates_both(efn))
+        n += 1
+        ctx.instance(f"{rel}::expand:qualified-method")
+        if "derive_more::core::ops::#trait_ident::#method_ident" not in etx:
+            ctx.report(f"role:qualified:{rel}", ctx.where(efn.file, efn.node), "the operator's method is no longer named as `derive_more::core::ops::#Trait::#method` for the field-wise calls: with method-call syntax an inherent method of a field type takes over", {"templates": etx})
+        if lhs is not None:
+            file_tx = A.TList(tx(t) for g in A.functions(efn.file) if g.block is not None for t in T.templates_both(g))
+            ctx.instance(f"{rel}:lhs-borrow")
+            if lhs not in file_tx:
+                ctx.report(f"role:lhs-borrow:{rel}", ctx.where(efn.file, efn.node), f"the left operand of the field-wise call is no longer passed as `{lhs or '(by value)'}`", {})
     # --- enum forms
     fn, ts = templates_in(ctx, "impl/src/add_like.rs", "enum_content")
     f = fn.file
     texts = A.TList(tx(t) for t in ts)
     want = {
-        "tuple": r"\(#subtype\(#\(#(\w+)\),\*\),#subtype\(#\(#(\w+)\),\*\)\)=>\{derive_more::core::result::Result::Ok\(#subtype\(#\(#(\w+)\.#method_iter\(#(\w+)\)\),\*\)\)\}",
-        "named": r"\(#subtype\{#\(#field_names:#(\w+)\),\*\},#subtype\{#\(#field_names:#(\w+)\),\*\}\)=>\{derive_more::core::result::Result::Ok\(#subtype\{#\(#field_names:#(\w+)\.#method_iter\(#(\w+)\)\),\*\}\)\}",
+        "tuple": r"\(#subtype\(#\(#(\w+)\),\*\),#subtype\(#\(#(\w+)\),\*\)\)=>\{derive_more::core::result::Result::Ok\(#subtype\(#\(#method_iter\(#(\w+),#(\w+)\)\),\*\)\)\}",
+        "named": r"\(#subtype\{#\(#field_names:#(\w+)\),\*\},#subtype\{#\(#field_names:#(\w+)\),\*\}\)=>\{derive_more::core::result::Result::Ok\(#subtype\{#\(#field_names:#method_iter\(#(\w+),#(\w+)\)\),\*\}\)\}",
     }
     for key, rx in want.items():
         hit = None
@@ -58,7 +72,7 @@ def rule_tpl_role(ctx):
         n += 1
         ctx.instance(f"add_like::enum_content:{key}-arm")
         if not hit:
-            ctx.report(f"role:enum:{key}", ctx.where(f, fn.node), f"the {key}-variant arm of `enum_content` no longer has the shape `(V(l..), V(r..)) => Ok(V(l.op(r)..))`", {"templates": texts})
+            ctx.report(f"role:enum:{key}", ctx.where(f, fn.node), f"the {key}-variant arm of `enum_content` no longer has the shape `(V(l..), V(r..)) => Ok(V(Trait::op(l, r)..))`", {"templates": texts})
             continue
         l, r, l2, r2 = hit.groups()
         if not (l == l2 and r == r2 and l != r):
@@ -125,7 +139,7 @@ def rule_tpl_role(ctx):
 def rule_unary(ctx):
     """UNARY: Not/Neg map every field (`self.#f.op()`), enum arms rebuild the same variant from the same binders, and the Result wrapping (`Ok(..)` per arm, `Err(UnitError)` for unit variants, `Result<Self, UnitError>` as output) is governed by one `has_unit_type` = 'some variant is a unit'."""
     rel = "impl/src/not_like.rs"
-    for qual, rx in (("tuple_content", r"self\.#(\w+)\.#method_ident\(\)"), ("struct_content", r"#(\w+):self\.#(\w+)\.#method_ident\(\)")):
+    for qual, rx in (("tuple_content", r"#\w+\(self\.#(\w+)\)"), ("struct_content", r"#(\w+):#\w+\(self\.#(\w+)\)")):
         fn, ts = templates_in(ctx, rel, qual)
         ok = False
         for t in ts:
@@ -134,15 +148,15 @@ def rule_unary(ctx):
                 ok = True
         ctx.instance(f"not_like::{qual}")
         if not ok:
-            ctx.report(f"unary:{qual}", ctx.where(fn.file, fn.node), f"`{qual}` no longer maps each field with `self.#f.op()` into the same field", {"templates": [tx(t) for t in ts]})
+            ctx.report(f"unary:{qual}", ctx.where(fn.file, fn.node), f"`{qual}` no longer maps each field with `Trait::op(self.#f)` into the same field", {"templates": [tx(t) for t in ts]})
     fn, ts = templates_in(ctx, rel, "enum_output_type_and_content")
     f = fn.file
     texts = A.TList(tx(t) for t in ts)
     body = A.fn_text(fn)
     need = {
-        "tuple-body": "#subtype(#(#vars.#method_iter()),*)",
+        "tuple-body": "#subtype(#(#method_iter(#vars)),*)",
         "tuple-arm": "#subtype(#(#vars),*)=>{#body}",
-        "named-body": "#subtype{#(#field_names:#vars.#method_iter()),*}",
+        "named-body": "#subtype{#(#field_names:#method_iter(#vars)),*}",
         "named-arm": "#subtype{#(#field_names:#vars),*}=>{#body}",
         "unit-arm": "#subtype=>derive_more::core::result::Result::Err(derive_more::UnitError::new(#operation_name))",
         "match": "matchself{#(#matches),*}",
